@@ -200,7 +200,6 @@ func TestC19Handlers(t *testing.T) {
 		configCase(names, set, mode, i%400 == 0)
 	}
 
-
 	// users list: a store with hostile names and permissions
 	rounds := vh.N(10, 100)
 
